@@ -36,8 +36,17 @@ impl<'a> Ref<'a> {
         for vs in &u.vsets {
             let pk = u.pkgs.get(vs.name as usize);
             let list: &[u32] = pk.and_then(|p| p.candidates.as_deref()).unwrap_or(&[]);
-            let c: Vec<u32> = list.iter().copied().filter(|s| vs.matching.contains(s)).collect();
-            let n: Vec<u32> = list.iter().copied().filter(|s| !vs.matching.contains(s)).collect();
+            let mut c: Vec<u32> = list.iter().copied().filter(|s| vs.matching.contains(s)).collect();
+            let mut n: Vec<u32> = list.iter().copied().filter(|s| !vs.matching.contains(s)).collect();
+            // the provider lists the answer of filter_candidates in its own order
+            for l in [&mut c, &mut n] {
+                match u.filter_order {
+                    1 => l.reverse(),
+                    2 => l.sort(),
+                    3 => l.sort_by_key(|&x| std::cmp::Reverse(x)),
+                    _ => {}
+                }
+            }
             let mut s = c.clone();
             s.sort_by_key(|&x| u.solvs[x as usize].rank); // stable
             if let Some(f) = pk.and_then(|p| p.favored) {
